@@ -320,7 +320,11 @@ func (env *Env) object(o types.Object) Val {
 			if v, ok := ex.immutableGlobalValue(g); ok {
 				return Val{t: v, typ: x.Type()}
 			}
-			return Val{t: ex.load(env.cur, ex.ptrLV(ex.globalRef(g), x.Type())), typ: x.Type()}
+			glv := ex.ptrLV(ex.globalRef(g), x.Type())
+			if glv.kind == "struct" {
+				return Val{t: ex.load(env.cur, glv), typ: x.Type(), lv: glv}
+			}
+			return Val{t: ex.load(env.cur, glv), typ: x.Type()}
 		}
 		// variable of a dependency (export data only): immutable by assumption
 		name := "gv$" + sanitize(x.Pkg().Name()+"."+x.Name())
@@ -1117,6 +1121,25 @@ func (env *Env) havocItem(item string, st *State, reach T) {
 	e, err := parseSpecExpr(item)
 	if err != nil {
 		env.fail("modifies %s: %v", item, err)
+	}
+	// one map entry: m[k]
+	if e.Kind == "index" {
+		x := env.eval(e.X)
+		if x.typ != nil {
+			if u, ok := x.typ.Underlying().(*types.Map); ok {
+				k := env.eval(e.Y)
+				has, val, ln := ex.mapComps(u)
+				hc, vc, lc := ex.get(st, has), ex.get(st, val), ex.get(st, ln)
+				ex.set(st, has, store(hc, x.t, store(sel(hc, x.t), k.t, ex.fresh("hvhas", "Bool"))))
+				nv := ex.freshOfType("hvval", u.Elem(), reach, nil)
+				ex.set(st, val, store(vc, x.t, store(sel(vc, x.t), k.t, nv)))
+				l := ex.fresh("hvlen", "Int")
+				ex.assume(tTrue, app("Bool", ">=", l, intLit(0)))
+				ex.set(st, ln, store(lc, x.t, l))
+				return
+			}
+		}
+		env.fail("modifies %s: only map entries can be named by index", item)
 	}
 	// ghost variable
 	if e.Kind == "ident" {
